@@ -493,6 +493,20 @@ class Ctx:
             return s
         return not self._feasible(sb.negate())
 
+    def consistent(self, extra):
+        """is assumptions ∧ path ∧ extra satisfiable?  (unknown counts as satisfiable)"""
+        self.solver.push()
+        for sb in extra:
+            if isinstance(sb, bool):
+                if not sb:
+                    self.solver.add(z3.BoolVal(False))
+                continue
+            self._declare(sb)
+            self.solver.add(sb.z3())
+        r = self.solver.check()
+        self.solver.pop()
+        return r != z3.unsat
+
     def model(self):
         """A small model of assumptions ∧ path (atom -> int), or None."""
         o = z3.Optimize()
